@@ -2,6 +2,7 @@
 completed path).  Each formula is decided by the solver under the path condition: unsat of pc ∧ ¬P = holds for every
 value on that path; sat = candidate counterexample (concrete model extracted for native replay)."""
 import os
+import sys
 import re
 import time
 import json
@@ -14,7 +15,7 @@ from . import srcindex
 
 class Obligation:
     def __init__(self, name, run, props, descr='', bounds='', max_paths=20000, functions=(), tier='quick',
-                 expect_ok=True, scenario=None, known_key=None, wall_s=None):
+                 expect_ok=True, scenario=None, known_key=None, wall_s=None, fresh_solver=False):
         self.name = name
         self.run = run              # run(E) -> (value, extra)
         self.props = props          # props(E, res) -> list of (label, formula | bool)
@@ -26,6 +27,7 @@ class Obligation:
         self.expect_ok = expect_ok  # vacuity: at least one path must reach a success exit
         self.scenario = scenario    # scenario(E, res, model) -> json-able dict for native replay
         self.known_key = known_key
+        self.fresh_solver = fresh_solver   # decide property queries with a fresh (preprocessing) solver instead of the incremental path solver
         self.wall_s = wall_s     # hard wall-clock cap for this obligation (default: what is left of the tier cap)
 
 
@@ -94,6 +96,9 @@ def exit_label(E, res):
     return 'ret'
 
 
+TRACE = bool(os.environ.get('VERIF_TRACE'))
+
+
 def make_on_path(E, obl):
     def on_path(res):
         out = {'exit': exit_label(E, res), 'violations': [], 'unknown': [], 'checked': 0, 'trivial': 0}
@@ -108,17 +113,36 @@ def make_on_path(E, obl):
             return out
         s = res.ctx.solver
         for label, Pf in props:
+            s = res.ctx.solver
             if Pf is True:
                 out['trivial'] += 1
                 continue
             t0 = time.time()
-            if Pf is False:
+            if obl.fresh_solver and Pf is not False:
+                r = z3.unknown
+            elif Pf is False:
                 r = s.check()
             else:
                 r = s.check(z3.Not(Pf))
             res.ctx.stats['solver_s'] += time.time() - t0
             res.ctx.stats['queries'] += 1
             out['checked'] += 1
+            if TRACE and time.time() - t0 > 2:
+                sys.stderr.write('slow query %.1fs %s: %s [%s]\n' % (time.time() - t0, r, label[:100], out['exit']))
+            if r == z3.unknown:
+                # the path solver is incremental (no preprocessing); a fresh solver over the same assertions runs z3's full
+                # tactic pipeline and decides e.g. div/mod-by-constant queries the incremental core gives up on
+                t1 = time.time()
+                s2 = z3.Solver()
+                s2.set('timeout', 120000)
+                s2.add(s.assertions())
+                if Pf is not False:
+                    s2.add(z3.Not(Pf))
+                r = s2.check()
+                res.ctx.stats['solver_s'] += time.time() - t1
+                res.ctx.stats['queries'] += 1
+                if r == z3.sat:
+                    s = s2
             if r == z3.unknown:
                 # a loaded machine can push one query over the per-query budget: retry once with ten times the budget
                 try:
